@@ -25,11 +25,33 @@ pub struct TmpPairInfo {
 pub const TMP_PAIR_INFO: Item<TmpPairInfo> = Item::new("tmp_pair_info");
 pub const PAIRS: Map<&[u8], PairInfoRaw> = Map::new("pair_info");
 
+// one byte that tells a native denom from a token address with the same bytes
+fn asset_kind_tag(asset_info: &AssetInfoRaw) -> u8 {
+    if asset_info.is_native_token() {
+        0
+    } else {
+        1
+    }
+}
+
+/// The registry key of an unordered pair of assets.
+/// The two assets are sorted, then each is encoded as `kind tag | identifier`;
+/// the first identifier is length-prefixed so that two different asset sets
+/// can never produce the same concatenation (e.g. {"ab","c"} and {"a","bc"}).
 pub fn pair_key(asset_infos: &[AssetInfoRaw; 2]) -> Vec<u8> {
     let mut asset_infos = asset_infos.to_vec();
-    asset_infos.sort_by(|a, b| a.as_bytes().cmp(b.as_bytes()));
+    asset_infos
+        .sort_by(|a, b| (a.as_bytes(), asset_kind_tag(a)).cmp(&(b.as_bytes(), asset_kind_tag(b))));
 
-    [asset_infos[0].as_bytes(), asset_infos[1].as_bytes()].concat()
+    let first_len = (asset_infos[0].as_bytes().len() as u32).to_be_bytes();
+    [
+        &[asset_kind_tag(&asset_infos[0])][..],
+        &first_len[..],
+        asset_infos[0].as_bytes(),
+        &[asset_kind_tag(&asset_infos[1])][..],
+        asset_infos[1].as_bytes(),
+    ]
+    .concat()
 }
 
 // settings for pagination
@@ -68,13 +90,7 @@ pub fn read_all_pairs(storage: &dyn Storage, api: &dyn Api) -> StdResult<Vec<Pai
 // this will set the first key after the provided key, by appending a 1 byte
 fn calc_range_start(start_after: Option<[AssetInfoRaw; 2]>) -> Option<Vec<u8>> {
     start_after.map(|asset_infos| {
-        let mut asset_infos = asset_infos.to_vec();
-        asset_infos.sort_by(|a, b| a.as_bytes().cmp(b.as_bytes()));
-
-        let mut v = [asset_infos[0].as_bytes(), asset_infos[1].as_bytes()]
-            .concat()
-            .as_slice()
-            .to_vec();
+        let mut v = pair_key(&asset_infos);
         v.push(1);
         v
     })
